@@ -315,7 +315,7 @@ def gen_c09_server(rng, thorough=False):
                                 server_cert=server_cert, peer_cert=trust, auth="allow",
                                 tag=f"c09-{mode}-{trust}-min{min_tls}-{variant}-{api}"))
     # the role reaches the authorization handler unchanged
-    for cert in ("client_operator", "client_viewer"):
+    for cert in ("client_operator", "client_viewer", "client_mixedcase"):
         steps = [conn(0, tls={"cert": cert, "versions": ["1.2", "1.3"]}), req(0, req_read(3, 0, 2), 1), req(0, req_wsr(1, 5), 1),
                  req(0, req_wmc(1, [True, False]), 2), close(0)]
         scs.append(scenario(len(scs), steps, variant="tls_authz", max_sessions=2, auth="hash", tag=f"c09-role-{cert}"))
